@@ -41,7 +41,8 @@ type c06Case struct {
 	// beyond the query's interval (1 s) and delivers 3 more; every line is its own group (more groups than the
 	// 10-entry message queue holds) and the consumer needs 3 ms per message.
 	Interim bool `json:"interim"`
-	Broken    bool `json:"broken"`    // free runs: the glob also matches a file the reader cannot decode (an empty .gz, as log rotation leaves it)
+	Same    bool `json:"same"` // interim runs: all lines belong to two groups (group by grp) instead of one group per line
+	Broken    bool `json:"broken"`    // free runs: the glob also matches files the reader cannot decode (an empty .gz, as log rotation leaves it) and a directory
 	OnlyDir   bool `json:"onlydir"`   // nothing the glob matches can be read (a directory): no file, no line - the run must end with an empty result
 	NoFinalNL bool `json:"nofinalnl"` // every second file ends without a newline (its last line still counts)
 }
@@ -184,11 +185,12 @@ func c06Run(c c06Case, base string) (res c06Result) {
 			}
 			defer fd.Close()
 			for i := 0; i < c.Lines[0]; i++ {
-				fmt.Fprintf(fd, "n=1|interim case line=%d\n", i)
+				fmt.Fprintf(fd, "n=1|grp=g%d|interim case line=%d\n", i/7%2, i)
 			}
 			time.Sleep(1300 * time.Millisecond)
 			for i := 0; i < 3; i++ {
-				fmt.Fprintf(fd, "n=1|late line=%d\n", i)
+				// (the first late line continues the group of the last line before the pause)
+				fmt.Fprintf(fd, "n=1|grp=g%d|late line=%d\n", ((c.Lines[0]-1)/7+i)%2, i)
 			}
 		}()
 	}
@@ -212,6 +214,8 @@ func c06Run(c c06Case, base string) (res c06Result) {
 	if c.Broken && !c.Interim {
 		os.WriteFile(filepath.Join(dir, "f00.log.gz"), []byte{}, 0644)
 		os.WriteFile(filepath.Join(dir, "f000.log.zst"), []byte("this is not zstd"), 0644)
+		// ... and a path the server refuses outright (only regular files may be read): a sub directory of that name
+		os.MkdirAll(filepath.Join(dir, "f0000.log.d"), 0755)
 	}
 	u, _ := user.New("vuser", "harness")
 	if c.Interim {
@@ -261,7 +265,9 @@ func c06Run(c c06Case, base string) (res c06Result) {
 		}
 	}()
 	go func() {
-		if c.Interim {
+		if c.Interim && c.Same {
+			h.Write(c06Frame("map select sum(n),count($line) group by grp interval 1 logformat generickv"))
+		} else if c.Interim {
 			h.Write(c06Frame("map select sum(n),count($line) group by $line interval 1 logformat generickv"))
 		} else {
 			h.Write(c06Frame("map select sum(n),count($line) group by $hostname interval 3600 logformat generickv"))
